@@ -76,6 +76,7 @@ def check(ctx):
     ctx.rule("R3", "each registered converter is paired with its confirmed detyper (and validator family) in the Var registry and ENSURERS", floor=25)
     ctx.rule("R4", "detype stores a string for a variable only past the three skips: DELETE_VAR mask, no detyper, None result", floor=3)
     ctx.rule("R5", "the child's environment is computed inside the per-command swap, at launch time", floor=2)
+    ctx.rule("R9", "which validator / converter / detyper a name gets is computed from the live registry and the live pattern rules on every call: the lookup methods keep no memo on the Env (pattern rules are edited in place: `$XONSH_ENV_PATTERN_DIRS.exclude.append(..)`)", floor=4)
     ctx.rule("R8", "the memoised mapping itself never leaves detype(): every return is a fresh mapping (callers edit what they get)", floor=2)
     ctx.rule("R7", "every stage owns its overlay: a mapping stored into a spec's `env` inside a loop over stages is created in that iteration", floor=1)
     ctx.rule("R6", "the per-command overlay is normalised for every shape of value: an element of a list value is read only where the guard shows it exists", floor=1)
@@ -137,6 +138,36 @@ def check(ctx):
             ctx.ob("R1", st, f"`{short(mut, 60)}` is followed by dropping the memoised mapping on every normal path", ok, key=f"{name}|store-mutation-without-invalidation|{short(mut, 40)}", where=loc(mut), path=cfg.fmt_path(path) if path else None)
     if n_mut < 6:
         raise AnalysisError(f"only {n_mut} store mutations found in Env")
+    # the registry of variable types is an input of detype() too (it selects the detyper): changing it must drop the memo
+    n_reg = 0
+    for name, fn in meths.items():
+        if name == "__init__":
+            continue
+        rcfg = None
+        for n in walk_local(fn):
+            mut = None
+            if isinstance(n, (ast.Assign, ast.AugAssign)):
+                tg = n.targets if isinstance(n, ast.Assign) else [n.target]
+                if any(isinstance(t, ast.Subscript) and unparse(t.value) == "self._vars" for t in tg) or any(unparse(t) == "self._vars" for t in tg):
+                    mut = n
+            elif isinstance(n, ast.Delete) and any(isinstance(t, ast.Subscript) and unparse(t.value) == "self._vars" for t in n.targets):
+                mut = n
+            elif isinstance(n, ast.Expr) and isinstance(n.value, ast.Call) and isinstance(n.value.func, ast.Attribute) and unparse(n.value.func.value) == "self._vars" and n.value.func.attr in ("pop", "popitem", "update", "clear", "setdefault", "__setitem__", "__delitem__"):
+                mut = n
+            if mut is None:
+                continue
+            n_reg += 1
+            rcfg = rcfg or CFG(fn)
+            inv = [m for m in rcfg.nodes if m.kind == "stmt" and isinstance(m.ast, ast.Assign) and any(unparse(t) == "self._detyped" for t in m.ast.targets) and const_value(m.ast.value, 0) is None]
+            nodes = rcfg.nodes_of(stmt_of(mut))
+            ok = bool(inv) and bool(nodes)
+            path = None
+            if ok:
+                ok, path = rcfg.must_pass(nodes, lambda m: m in inv, exits=("exit",))
+                ok = ok or all(rcfg.dominated(x, lambda m: m in inv) for x in nodes)
+            ctx.ob("R1", f"{EN}:Env.{name}", f"`{short(mut, 60)}` changes which detyper a variable gets: the memoised mapping is dropped on every normal path", ok, key=f"{name}|registry-mutation-without-invalidation|{short(mut, 40)}", where=loc(mut), path=rcfg.fmt_path(path) if path else None)
+    if n_reg < 2:
+        raise AnalysisError(f"only {n_reg} mutations of the variable registry found in Env (register, deregister expected)")
 
     # ---- the same discipline for every other class in environ.py that memoises its string form
     #      in `_detyped` (LsColors): state read by the memo-filling method must not be mutated
@@ -336,8 +367,29 @@ def check(ctx):
         ctx.ob("R5", f"{SP}:cmds_to_specs", f"`{short(c, 60)}`: the per-command overlay is taken from `envs` at the command's own position in the command list", ok, key="cmds_to_specs|overlay-misaligned", where=loc(c), detail=why)
 
     _memo_escape(ctx, meths)
+    _lookup_purity(ctx, mod, meths)
     _overlay_index_safety(ctx, sp)
     _overlay_ownership(ctx, sp)
+
+
+_SELF_MUTATORS = {"add", "update", "discard", "remove", "append", "pop", "clear", "extend", "insert", "setdefault", "popitem", "__setitem__", "__delitem__"}
+
+
+def _lookup_purity(ctx, mod, meths):
+    for name in ("get_validator", "get_converter", "get_detyper", "_find_var_pattern"):
+        if name not in meths:
+            raise AnchorMissing(f"{EN}:Env.{name}")
+        fn = flat(ctx, meths[name], 2)
+        writes = []
+        for n in walk_local(fn):
+            tg = n.targets if isinstance(n, ast.Assign) else [n.target] if isinstance(n, (ast.AugAssign, ast.AnnAssign)) else n.targets if isinstance(n, ast.Delete) else []
+            for t in tg:
+                for x in ast.walk(t):
+                    if isinstance(x, ast.Attribute) and unparse(x.value) == "self" and isinstance(t, (ast.Attribute, ast.Subscript)):
+                        writes.append(n)
+            if isinstance(n, ast.Call) and isinstance(n.func, ast.Attribute) and n.func.attr in _SELF_MUTATORS and isinstance(n.func.value, ast.Attribute) and unparse(n.func.value.value) == "self":
+                writes.append(n)
+        ctx.ob("R9", f"{EN}:Env.{name}", "stores nothing on the Env (no per-name memo of the type lookup)", not writes, key=f"{name}|lookup-keeps-state", where=loc(writes[0]) if writes else loc(meths[name]), detail=f"`{short(writes[0], 70)}`" if writes else None)
 
 
 def _memo_escape(ctx, meths):
@@ -381,7 +433,7 @@ def _memo_escape(ctx, meths):
         ctx.ob("R8", st, f"`{short(r, 50)}` hands out a mapping of its own", ok, key=f"detype|memo-escapes|{short(v, 30)}", where=loc(r), detail=why)
 
 
-def _overlay_ownership(ctx, sp):
+def _overlay_ownership(ctx, sp, rule="R7"):
     """SubprocSpec.env is edited in place later (run() adds __ALIAS_NAME, handlers may add keys): two stages must never
     hold the same mapping.  In every loop, a value stored into `<stage>.env` must be built inside the iteration."""
     n = 0
@@ -401,7 +453,10 @@ def _overlay_ownership(ctx, sp):
                     mutable = [d for d in outside if d.kind == "param" or (d.value is not None and not isinstance(d.value, ast.Constant))]
                     if mutable and not (isinstance(loop, ast.For) and any(isinstance(x, ast.Name) and x.id == v.id for x in ast.walk(loop.target))):
                         ok, why = False, f"`{v.id}` is bound once outside the loop and shared by every stage that takes it"
-                ctx.ob("R7", f"{SP}:{q}", f"`{short(a, 60)}`: the stored overlay is created in this iteration", ok, key=f"{q}|overlay-shared-across-stages", where=loc(a), detail=why)
+                    if not ds and v.id in sp.assigns and any(not isinstance(a_.value, ast.Constant) for a_ in sp.assigns[v.id] if getattr(a_, "value", None) is not None):
+                        # a module-level object: shared by every stage of every command of the session
+                        ok, why = False, f"`{v.id}` is one module-level object: every stage of every later command gets - and edits - the same mapping"
+                ctx.ob(rule, f"{SP}:{q}", f"`{short(a, 60)}`: the stored overlay is created in this iteration", ok, key=f"{q}|overlay-shared-across-stages", where=loc(a), detail=why)
     if not n:
         raise AnalysisError(f"{SP}: no per-stage overlay store inside a loop found (expected _set_specs_capture_always)")
 
@@ -525,5 +580,5 @@ META = {
     "the stage's own position in the command list; the overlay normaliser's indexed reads are guarded for every shape of value (non-list, lists of 0..n words). Value-level round-trips are not decided.",
     "note": "Decides the listed structural clauses, not the behaviour. The converter->detyper table is frozen from "
     "reading tools.py/environ.py; a converter the table has never seen is reported in the evidence, not failed.",
-    "more": "Also decided: the overlay's one-word unwrap indexes a value only where the guard implies the element exists for every shape of value; overlays stored in a loop over stages are created per iteration; Env.detype() never hands out its memoised mapping itself.",
+    "more": "Also decided: the overlay's one-word unwrap indexes a value only where the guard implies the element exists for every shape of value; overlays stored in a loop over stages are created per iteration; Env.detype() never hands out its memoised mapping itself. Mutations of the type registry drop the memo; the type-lookup methods keep no state on the Env.",
 }
